@@ -54,3 +54,16 @@ M("c19-timeout-only-when-full", ["C19"], "timeout ignored unless the buffer is f
   (R, "|| event.IsExpired() {", "|| (size >= l.maxSize && event.IsExpired()) {"))
 M("c19-nil-stream", ["C19"], "nil stream accepted",
   (R, "	if stream == nil {\n		return nil, errors.New(\"stream cannot be nil\")\n	}\n", "	_ = errors.New\n"))
+# ---- C11 ----
+M("c11-cleanup-no-lock", ["C11"], "CleanUp runs without the mutex",
+  (R, "func (l *eventList) CleanUp() ([]*event, int) {\n	l.Lock()\n	defer l.Unlock()\n", "func (l *eventList) CleanUp() ([]*event, int) {\n"))
+M("c11-callback-under-lock", ["C11"], "Maintain delivers callbacks while holding the list lock (re-entrant callbacks deadlock)",
+  (R, "	evicted, lost := r.list.CleanUp()\n	verifYield(r, \"maintain:afterCleanUp\")\n	r.callback(evicted, lost)\n	return nil",
+      "	evicted, lost := r.list.CleanUp()\n	verifYield(r, \"maintain:afterCleanUp\")\n	r.list.Lock()\n	r.callback(evicted, lost)\n	r.list.Unlock()\n	return nil"))
+M("c11-close-no-cas", ["C11"], "Close uses load+store instead of CAS",
+  (R, "	if atomic.CompareAndSwapInt32(&r.closed, 0, 1) {\n		verifYield(r, \"close:afterCAS\")", "	if atomic.LoadInt32(&r.closed) == 0 {\n		verifYield(r, \"close:afterCAS\")\n		atomic.StoreInt32(&r.closed, 1)"))
+M("c11-evicted-still-attached", ["C11", "C01"], "CleanUp returns events that stay in the table until the next CleanUp (deferred delete)",
+  (R, "			evicted = append(evicted, event)\n			l.remove()\n			continue", "			evicted = append(evicted, event)\n			l.seqs = l.seqs[1:]\n			if len(l.seqs) == 0 {\n				delete(l.events, seq)\n			}\n			continue"))
+M("c11-unlocked-put-fastpath", ["C11"], "Put checks EOE before taking the lock and touches the map unlocked",
+  (R, "func (l *eventList) Put(msg *auparse.AuditMessage) {\n	l.Lock()\n	defer l.Unlock()\n\n	seq := sequenceNum(msg.Sequence)\n	e, found := l.events[seq]\n",
+      "func (l *eventList) Put(msg *auparse.AuditMessage) {\n	seq := sequenceNum(msg.Sequence)\n	e, found := l.events[seq]\n	l.Lock()\n	defer l.Unlock()\n"))
